@@ -2,10 +2,11 @@
 import bz2
 import os
 import re
+import subprocess
 
 from vlib import core, e2e
 
-MODS = ['S4V.Props.MemSpec']
+MODS = ['S4V.Props.MemSpec', 'S4V.Props.MemGeneralSpec']
 LEVEL_NOTE = ("Proved in general: a gz/bz2/lz4 reader asked in non-decreasing order holds exactly one block between calls and blocks_highest <= 2, for "
               "every content, block size, chunking and file size (READ_BLOCK_LOOKBACK_DROP; model S4V.Model.Stream, tied to the code by the C05 `asm` "
               "correspondence which compares blocks_highest). The stage-3 loop + drop path (drop_data_try target bo_first-2 with guard bo_first>1, syslines "
@@ -22,9 +23,19 @@ LEVEL_NOTE = ("Proved in general: a gz/bz2/lz4 reader asked in non-decreasing or
               "on block ends in a plain file => every such block is retained even with a prompt consumer, F15). Counter-model for the drop_lines loop "
               "(drop_lines_short_circuit_grows): with `lines.into_iter().any(..)` 3-line messages whose inner line crosses a block boundary retain >= n lines for "
               "every n (proved), 20/30/50 at 10/20/40 messages against 16 for the code as extracted. End to end: --summary high-water marks on generated files "
-              "growing x10, including 61-line messages at the default block size.")
-ASSUME = ["the general bound covers the geometry `Straddling M` (exactly one message per block boundary, up to M lines each); several messages per block "
-          "(the common case at the default block size) are covered by the end-to-end series only, not by a general proof",
+              "growing x10, including 61-line messages at the default block size. GENERAL GEOMETRY (S4V.Props.MemGeneralSpec, invariant S4V.Lemmas.MemGeneral.Inv): "
+              "C17_bound_general - for every message list with `Geometry M B P` (decidable: 1..M lines per message, a message inside at most B consecutive blocks, "
+              "messages in file order, at most P messages starting in one block) and a consumer that is not lagging: syslines high <= P(B+1)+2, lines high <= "
+              "M(P(B+1)+2)+1 plain or streamed, blocks high <= 2 streamed, blocks high <= 5B-3 on a plain file with `Crossed` (no line ends on a block end), for every "
+              "number of messages; Straddling M is the instance B=2, P=1 (7 / 5M+1 / 5). Each side condition is refuted for EVERY bound: prompt_is_needed (F8), "
+              "crossed_is_needed (F25: every block retained, all n), visit_all_is_needed (seeded C17-a), dense_is_needed (P is real); C17_unbounded_false closes "
+              "MemSpec.C17_unbounded_stmt. MODEL REPAIR found by the tie: SyslogProcessor.drop_block_last starts at 0 (DROP_BLOCK_LAST_INIT regenerated), so the first "
+              "drop target (0) is always skipped and blocks 0-2 are all stored when the first drop runs; S4V.Model.MemSkip.runS models it and C17_bound_general_skip "
+              "proves the same bounds with max(B,2) for B. Exact tie: the geometry of each generated file (line offsets / --blocksz) is evaluated by the compiled Lean "
+              "model (driver op `memgeo`, runS) and its three marks are compared with --summary: each mark must be at least the model's and at most a consumer lag's worth (8 messages) above it.")
+ASSUME = ["the general bound (C17_bound_general / _skip) takes a consumer that is not lagging; with a lagging consumer only messages at least CHANNEL_CAPACITY+2 "
+          "behind the drop target are safe (true when a block holds >= 8 messages, checked end to end by the exact tie, not proved in general)",
+          "`P` (messages starting per block) is a parameter of the geometry; for a real file it is at most blocksz / (shortest message)",
           "in the short-circuit variant of the model drop_block is taken to return true (Arc::try_unwrap of a block succeeds once the earlier lines sharing it "
           "were dropped); the variant is a counter-model, the code as extracted does not use it",
           "which messages the printing thread still holds is scheduling dependent; the model takes any lag up to CHANNEL_CAPACITY+2",
@@ -58,6 +69,41 @@ def fixed_log(nbytes, lines_per_msg, bytes_per_line):
         sz += len(msg)
         i += 1
     return b''.join(out)
+
+
+def varied_ml_log(rng, nbytes, nl, vmax):
+    """messages of `nl` lines (one dated line + continuation lines) of varying length"""
+    out, sz, i = [], 0, 0
+    while sz < nbytes:
+        msg = b'2024-01-%02d %02d:%02d:%02d m%07d %s\n' % (1 + (i // 86400) % 28, (i // 3600) % 24, (i // 60) % 60, i % 60, i, b'v' * rng.below(vmax))
+        for j in range(nl - 1):
+            msg += b' cont %d %s\n' % (j, b'y' * rng.below(vmax))
+        out.append(msg)
+        sz += len(msg)
+        i += 1
+    return b''.join(out)
+
+
+def geometry(data, bs):
+    """the model's view of a file: per message, per line, (first block, last block)"""
+    msgs, pos = [], 0
+    for line in data.split(b'\n')[:-1]:
+        n = len(line) + 1
+        ln = (pos // bs, (pos + n - 1) // bs)
+        if line[:2] == b'20' or not msgs:
+            msgs.append([ln])
+        else:
+            msgs[-1].append(ln)
+        pos += n
+    return msgs
+
+
+def model_marks(ctx, msgs, streamed):
+    """marks of S4V.Model.MemSkip.runS (prompt consumer) from the compiled Lean model"""
+    req = 'memgeo %s skip prompt %s\n' % ('streamed' if streamed else 'plain', ' '.join(','.join('%d:%d' % ln for ln in m) for m in msgs))
+    p = subprocess.run([core.DRV], input=req.encode(), stdout=subprocess.PIPE, timeout=300)
+    w = p.stdout.decode().split()
+    return tuple(int(x) for x in w) if len(w) == 3 and all(x.isdigit() for x in w) else None
 
 
 def coincidences(data, bs):
@@ -149,6 +195,26 @@ def oracle(ctx):
     ml = [500_000, 8_000_000] + ([24_000_000] if ctx.thorough else [])
     series('multiline', lambda n: fixed_log(n, 61, 48 + (n % 7)), ml, ('plain', 'gz'), None,
            {'blocks': 'flat', 'lines': 'flat', 'syslines': 'flat'}, tight=True)
+    # 6. several messages per block at small block sizes (the geometry of C17_bound_general): flat, and EXACTLY the marks of the Lean model
+    for label, bs, nl, vmax in (('multi1024', 1024, 1, 60), ('multi512', 512, 1, 40), ('ml3x1024', 1024, 3, 40), ('ml5x2048', 2048, 5, 30)):
+        series(label, lambda n, nl=nl, vmax=vmax: varied_ml_log(rng, n, nl, vmax), [60_000, 600_000] + ([6_000_000] if ctx.thorough else []),
+               ('plain', 'gz'), bs, {'blocks': 'flat', 'lines': 'flat', 'syslines': 'flat'}, tight=True)
+        for kind in ('plain', 'gz'):
+            data = varied_ml_log(rng, ctx.q(40_000, 120_000), nl, vmax)
+            p = pack(ctx, data, kind, 'geo_%s.log' % label)
+            rc, outlen, m = marks(p, bs)
+            ev += 1
+            os.unlink(p)
+            mm = model_marks(ctx, geometry(data, bs), kind != 'plain')
+            got = (m['blocks'], m['lines'], m['syslines'])
+            table.append({'series': 'geo_' + label, 'kind': kind, 'blocksz': bs, 'marks': [{'bytes': len(data), **m}], 'model': mm})
+            dense = bs // (max(len(x) for x in data.split(b'\n')) + 1) >= 8
+            if mm is None:
+                fails.append({'signature': 'oracle:model-driver-failed', 'detail': f'geo_{label} {kind} bs={bs}: memgeo gave no marks'})
+            # the model's consumer is prompt; the real one may hold up to CHANNEL_CAPACITY + 2 messages a little longer (more on a loaded machine),
+            # which can only RETAIN more: never fewer than the model, and at most that lag's worth more
+            elif not all(mm[i] <= got[i] <= mm[i] + lagw for i, lagw in ((0, 8), (1, 8 * nl if not dense else 8 * nl), (2, 8))):
+                fails.append({'signature': 'memory:marks-differ-from-model', 'detail': f'geo_{label} {kind} bs={bs} {len(data)} bytes: --summary {got}, model runS {mm}'})
     # 4. line ends on block ends, plain file, default block size: known finding F15
     nonlocal_allow = None
     for kind, exp in (('plain', 'memory:block-ending-on-line-end-never-dropped'),):
